@@ -1,4 +1,5 @@
 import GramModel.Lemmas.DeBruijn
+import GramModel.Lemmas.Named
 
 /-!
 # C11 — substitution and index shifting are capture-avoiding
@@ -82,7 +83,7 @@ def C11_fv_list_stmt : Prop :=
   ∀ (t : Tm) (c j : Nat), j ∈ freeVars t c ↔ freeAt t (j + c) = true
 theorem C11_fv_list : C11_fv_list_stmt := mem_freeVars
 
-/-! ## Pending (T2): stated, not yet claimed -/
+/-! ## Further laws (second tier) -/
 
 /-- The substitution lemma: opening commutes with opening. -/
 def C11_open_open_unrestricted : Prop :=
@@ -169,3 +170,373 @@ theorem C11_open_ushift_low : C11_open_ushift_low_stmt := open_ushift_low
 def C11_ushift_merge_stmt : Prop :=
   ∀ (t : Tm) (c d a b : Nat), d ≤ c → c ≤ d + b → ushift c a (ushift d b t) = ushift d (a + b) t
 theorem C11_ushift_merge : C11_ushift_merge_stmt := ushift_ushift_mid
+
+/-! ## Opening agrees with capture-avoiding substitution on named terms -/
+
+/-- Named terms (the group-free fragment: variables by name, binders `x => b`, `(x : d) -> c`, application,
+arithmetic, conditionals, constants). -/
+inductive NTm : Type
+  | var (x : Name)
+  | lam (x : Name) (d b : NTm)
+  | pi (x : Name) (d c : NTm)
+  | app (f a : NTm)
+  | neg (a : NTm)
+  | bin (op : BinOp) (a b : NTm)
+  | ite (c a b : NTm)
+  | lit (n : Int)
+  | tt | ff | type | int | bool
+
+/-- translation to de Bruijn terms under the stack of enclosing binder names (innermost first): a variable
+becomes the position of the nearest binder of its name; an unbound name has no translation -/
+def NTm.toDB (Γ : List Name) : NTm → Option Tm
+  | .var x => (Γ.idxOf? x).map (Tm.var x)
+  | .lam x d b =>
+      match d.toDB Γ, b.toDB (x :: Γ) with
+      | some d', some b' => some (.lam x false d' b')
+      | _, _ => none
+  | .pi x d c =>
+      match d.toDB Γ, c.toDB (x :: Γ) with
+      | some d', some c' => some (.pi x false d' c')
+      | _, _ => none
+  | .app f a =>
+      match f.toDB Γ, a.toDB Γ with
+      | some f', some a' => some (.app f' a')
+      | _, _ => none
+  | .neg a =>
+      match a.toDB Γ with
+      | some a' => some (.neg a')
+      | none => none
+  | .bin op a b =>
+      match a.toDB Γ, b.toDB Γ with
+      | some a', some b' => some (.bin op a' b')
+      | _, _ => none
+  | .ite c a b =>
+      match c.toDB Γ, a.toDB Γ, b.toDB Γ with
+      | some c', some a', some b' => some (.ite c' a' b')
+      | _, _, _ => none
+  | .lit n => some (.lit n)
+  | .tt => some .tt
+  | .ff => some .ff
+  | .type => some .type
+  | .int => some .int
+  | .bool => some .bool
+
+/-- names bound somewhere in the term -/
+def NTm.binders : NTm → List Name
+  | .lam x d b => x :: (d.binders ++ b.binders)
+  | .pi x d b => x :: (d.binders ++ b.binders)
+  | .app f a => f.binders ++ a.binders
+  | .neg a => a.binders
+  | .bin _ a b => a.binders ++ b.binders
+  | .ite c a b => c.binders ++ a.binders ++ b.binders
+  | _ => []
+
+/-- names occurring free -/
+def NTm.free : NTm → List Name
+  | .var x => [x]
+  | .lam x d b => d.free ++ (b.free.filter (· ≠ x))
+  | .pi x d b => d.free ++ (b.free.filter (· ≠ x))
+  | .app f a => f.free ++ a.free
+  | .neg a => a.free
+  | .bin _ a b => a.free ++ b.free
+  | .ite c a b => c.free ++ a.free ++ b.free
+  | _ => []
+
+/-- substitution of `u` for the free occurrences of `x`; it is capture avoiding whenever no binder of the term
+binds `x` or a free name of `u` — gram's own discipline (re-binding a name in scope is an error) -/
+def NTm.subst (x : Name) (u : NTm) : NTm → NTm
+  | .var y => if y = x then u else .var y
+  | .lam y d b => .lam y (NTm.subst x u d) (let b' := NTm.subst x u b; if y = x then b else b')
+  | .pi y d c => .pi y (NTm.subst x u d) (let c' := NTm.subst x u c; if y = x then c else c')
+  | .app f a => .app (NTm.subst x u f) (NTm.subst x u a)
+  | .neg a => .neg (NTm.subst x u a)
+  | .bin op a b => .bin op (NTm.subst x u a) (NTm.subst x u b)
+  | .ite c a b => .ite (NTm.subst x u c) (NTm.subst x u a) (NTm.subst x u b)
+  | .lit n => .lit n
+  | .tt => .tt
+  | .ff => .ff
+  | .type => .type
+  | .int => .int
+  | .bool => .bool
+
+/-! ### Lemmas about the named calculus (general forms; list facts in `Lemmas/Named.lean`) -/
+namespace NamedLemmas
+
+/-- **Weakening, general form**: inserting the names `Δ` at depth `Γ₁.length` shifts the translation by `Δ.length`
+at cutoff `Γ₁.length`, provided no free name of `t` that is not already captured by `Γ₁` is among the inserted names.
+Nothing is asked of the binders of `t`. -/
+theorem toDB_insert (t : NTm) : ∀ (Γ₁ Δ Γ₂ : List Name) (t' : Tm),
+    (∀ y ∈ t.free, y ∉ Γ₁ → y ∉ Δ) → t.toDB (Γ₁ ++ Γ₂) = some t' →
+    t.toDB (Γ₁ ++ (Δ ++ Γ₂)) = some (ushift Γ₁.length Δ.length t') := by
+  induction t with
+  | var x =>
+    intro Γ₁ Δ Γ₂ t' hf h
+    simp only [NTm.toDB] at h ⊢
+    cases hi : (Γ₁ ++ Γ₂).idxOf? x with
+    | none => rw [hi] at h; simp at h
+    | some i =>
+      rw [hi] at h; simp only [Option.map_some, Option.some.injEq] at h; subst h
+      rw [idxOf?_insert x Γ₁ Δ Γ₂ i (hf x (by simp [NTm.free])) hi]
+      simp only [Option.map_some, ushift]
+      split <;> rfl
+  | lam x d b ihd ihb =>
+    intro Γ₁ Δ Γ₂ t' hf h
+    simp only [NTm.toDB] at h ⊢
+    split at h
+    · rename_i d' b' hd hb
+      simp only [Option.some.injEq] at h; subst h
+      have hfd : ∀ y ∈ d.free, y ∉ Γ₁ → y ∉ Δ := fun y hy => hf y (by simp [NTm.free, hy])
+      have hfb : ∀ y ∈ b.free, y ∉ (x :: Γ₁) → y ∉ Δ := fun y hy hn =>
+        hf y (by simp only [NTm.free, List.mem_append, List.mem_filter]
+                 exact Or.inr ⟨hy, by simpa using fun e => hn (by simp [e])⟩)
+          (fun e => hn (by simp [e]))
+      have h2 := ihb (x :: Γ₁) Δ Γ₂ b' hfb hb
+      simp only [List.cons_append, List.length_cons] at h2
+      rw [ihd Γ₁ Δ Γ₂ d' hfd hd, h2]
+      simp [ushift]
+    · cases h
+  | pi x d b ihd ihb =>
+    intro Γ₁ Δ Γ₂ t' hf h
+    simp only [NTm.toDB] at h ⊢
+    split at h
+    · rename_i d' b' hd hb
+      simp only [Option.some.injEq] at h; subst h
+      have hfd : ∀ y ∈ d.free, y ∉ Γ₁ → y ∉ Δ := fun y hy => hf y (by simp [NTm.free, hy])
+      have hfb : ∀ y ∈ b.free, y ∉ (x :: Γ₁) → y ∉ Δ := fun y hy hn =>
+        hf y (by simp only [NTm.free, List.mem_append, List.mem_filter]
+                 exact Or.inr ⟨hy, by simpa using fun e => hn (by simp [e])⟩)
+          (fun e => hn (by simp [e]))
+      have h2 := ihb (x :: Γ₁) Δ Γ₂ b' hfb hb
+      simp only [List.cons_append, List.length_cons] at h2
+      rw [ihd Γ₁ Δ Γ₂ d' hfd hd, h2]
+      simp [ushift]
+    · cases h
+  | app f a ihf iha =>
+    intro Γ₁ Δ Γ₂ t' hf h
+    simp only [NTm.toDB] at h ⊢
+    split at h
+    · rename_i f' a' h1 h2
+      simp only [Option.some.injEq] at h; subst h
+      rw [ihf Γ₁ Δ Γ₂ f' (fun y hy => hf y (by simp [NTm.free, hy])) h1,
+        iha Γ₁ Δ Γ₂ a' (fun y hy => hf y (by simp [NTm.free, hy])) h2]
+      simp [ushift]
+    · cases h
+  | neg a iha =>
+    intro Γ₁ Δ Γ₂ t' hf h
+    simp only [NTm.toDB] at h ⊢
+    split at h
+    · rename_i a' h1
+      simp only [Option.some.injEq] at h; subst h
+      rw [iha Γ₁ Δ Γ₂ a' (fun y hy => hf y (by simp [NTm.free, hy])) h1]
+      simp [ushift]
+    · cases h
+  | bin op a b iha ihb =>
+    intro Γ₁ Δ Γ₂ t' hf h
+    simp only [NTm.toDB] at h ⊢
+    split at h
+    · rename_i a' b' h1 h2
+      simp only [Option.some.injEq] at h; subst h
+      rw [iha Γ₁ Δ Γ₂ a' (fun y hy => hf y (by simp [NTm.free, hy])) h1,
+        ihb Γ₁ Δ Γ₂ b' (fun y hy => hf y (by simp [NTm.free, hy])) h2]
+      simp [ushift]
+    · cases h
+  | ite c a b ihc iha ihb =>
+    intro Γ₁ Δ Γ₂ t' hf h
+    simp only [NTm.toDB] at h ⊢
+    split at h
+    · rename_i c' a' b' h0 h1 h2
+      simp only [Option.some.injEq] at h; subst h
+      rw [ihc Γ₁ Δ Γ₂ c' (fun y hy => hf y (by simp [NTm.free, hy])) h0,
+        iha Γ₁ Δ Γ₂ a' (fun y hy => hf y (by simp [NTm.free, hy])) h1,
+        ihb Γ₁ Δ Γ₂ b' (fun y hy => hf y (by simp [NTm.free, hy])) h2]
+      simp [ushift]
+    · cases h
+  | lit n => intro Γ₁ Δ Γ₂ t' _ h; simp only [NTm.toDB, Option.some.injEq] at h ⊢; subst h; simp [ushift]
+  | tt => intro Γ₁ Δ Γ₂ t' _ h; simp only [NTm.toDB, Option.some.injEq] at h ⊢; subst h; simp [ushift]
+  | ff => intro Γ₁ Δ Γ₂ t' _ h; simp only [NTm.toDB, Option.some.injEq] at h ⊢; subst h; simp [ushift]
+  | type => intro Γ₁ Δ Γ₂ t' _ h; simp only [NTm.toDB, Option.some.injEq] at h ⊢; subst h; simp [ushift]
+  | int => intro Γ₁ Δ Γ₂ t' _ h; simp only [NTm.toDB, Option.some.injEq] at h ⊢; subst h; simp [ushift]
+  | bool => intro Γ₁ Δ Γ₂ t' _ h; simp only [NTm.toDB, Option.some.injEq] at h ⊢; subst h; simp [ushift]
+
+/-- **Substitution at depth**: `b` lives under the binders `Γ₁` crossed so far (none of them `x`, none free in `u`),
+then `x`, then `Γ`; `u` lives in `Γ`; no binder of `b` re-binds `x` or a free name of `u`.  Translating the
+substituted term under `Γ₁ ++ Γ` is opening the translation at index `Γ₁.length`, the inserted term lifted by
+`Γ₁.length`.  Distinctness of the names of `Γ`, of the binders of `b`, and freshness of the binders with respect to
+`Γ` are not needed; nothing is asked of the binders of `u`. -/
+theorem toDB_subst (x : Name) (u : NTm) (u' : Tm) (Γ : List Name) (hu : u.toDB Γ = some u') (b : NTm) :
+    ∀ (Γ₁ : List Name) (b' : Tm), x ∉ Γ₁ → (∀ y ∈ Γ₁, y ∉ u.free) →
+      (∀ y ∈ b.binders, y ≠ x ∧ y ∉ u.free) → b.toDB (Γ₁ ++ x :: Γ) = some b' →
+      (NTm.subst x u b).toDB (Γ₁ ++ Γ) = some (openT b' Γ₁.length u' Γ₁.length) := by
+  induction b with
+  | var y =>
+    intro Γ₁ b' hx hΓ₁ _ h
+    simp only [NTm.toDB] at h
+    by_cases e : y = x
+    · subst e
+      rw [idxOf?_middle y Γ₁ Γ hx] at h
+      simp only [Option.map_some, Option.some.injEq] at h; subst h
+      have := toDB_insert u [] Γ₁ Γ u' (fun z hz _ hz' => hΓ₁ z hz' hz) hu
+      simp only [NTm.subst, if_true, openT]
+      simpa using this
+    · cases hj : (Γ₁ ++ x :: Γ).idxOf? y with
+      | none => rw [hj] at h; simp at h
+      | some j =>
+        rw [hj] at h; simp only [Option.map_some, Option.some.injEq] at h; subst h
+        obtain ⟨hne, h2⟩ := idxOf?_remove x y Γ₁ Γ j e hj
+        simp only [NTm.subst, e, if_false, NTm.toDB, h2, Option.map_some, openT, hne]
+        split <;> rfl
+  | lam y d b ihd ihb =>
+    intro Γ₁ t' hx hΓ₁ hb h
+    simp only [NTm.toDB] at h
+    split at h
+    · rename_i d' b' hd hb'
+      simp only [Option.some.injEq] at h; subst h
+      have hy := hb y (by simp [NTm.binders])
+      have h1 := ihd Γ₁ d' hx hΓ₁ (fun z hz => hb z (by simp [NTm.binders, hz])) hd
+      have h2 := ihb (y :: Γ₁) b' (by simpa using ⟨fun e => hy.1 e.symm, hx⟩)
+        (by intro z hz; rcases List.mem_cons.mp hz with e | hz
+            · subst e; exact hy.2
+            · exact hΓ₁ z hz)
+        (fun z hz => hb z (by simp [NTm.binders, hz])) hb'
+      simp only [List.cons_append, List.length_cons] at h2
+      simp only [NTm.subst, hy.1, if_false, NTm.toDB, h1, h2, openT]
+    · cases h
+  | pi y d b ihd ihb =>
+    intro Γ₁ t' hx hΓ₁ hb h
+    simp only [NTm.toDB] at h
+    split at h
+    · rename_i d' b' hd hb'
+      simp only [Option.some.injEq] at h; subst h
+      have hy := hb y (by simp [NTm.binders])
+      have h1 := ihd Γ₁ d' hx hΓ₁ (fun z hz => hb z (by simp [NTm.binders, hz])) hd
+      have h2 := ihb (y :: Γ₁) b' (by simpa using ⟨fun e => hy.1 e.symm, hx⟩)
+        (by intro z hz; rcases List.mem_cons.mp hz with e | hz
+            · subst e; exact hy.2
+            · exact hΓ₁ z hz)
+        (fun z hz => hb z (by simp [NTm.binders, hz])) hb'
+      simp only [List.cons_append, List.length_cons] at h2
+      simp only [NTm.subst, hy.1, if_false, NTm.toDB, h1, h2, openT]
+    · cases h
+  | app f a ihf iha =>
+    intro Γ₁ t' hx hΓ₁ hb h
+    simp only [NTm.toDB] at h
+    split at h
+    · rename_i f' a' h1 h2
+      simp only [Option.some.injEq] at h; subst h
+      simp only [NTm.subst, NTm.toDB, openT,
+        ihf Γ₁ f' hx hΓ₁ (fun z hz => hb z (by simp [NTm.binders, hz])) h1,
+        iha Γ₁ a' hx hΓ₁ (fun z hz => hb z (by simp [NTm.binders, hz])) h2]
+    · cases h
+  | neg a iha =>
+    intro Γ₁ t' hx hΓ₁ hb h
+    simp only [NTm.toDB] at h
+    split at h
+    · rename_i a' h1
+      simp only [Option.some.injEq] at h; subst h
+      simp only [NTm.subst, NTm.toDB, openT,
+        iha Γ₁ a' hx hΓ₁ (fun z hz => hb z (by simp [NTm.binders, hz])) h1]
+    · cases h
+  | bin op a b iha ihb =>
+    intro Γ₁ t' hx hΓ₁ hb h
+    simp only [NTm.toDB] at h
+    split at h
+    · rename_i a' b' h1 h2
+      simp only [Option.some.injEq] at h; subst h
+      simp only [NTm.subst, NTm.toDB, openT,
+        iha Γ₁ a' hx hΓ₁ (fun z hz => hb z (by simp [NTm.binders, hz])) h1,
+        ihb Γ₁ b' hx hΓ₁ (fun z hz => hb z (by simp [NTm.binders, hz])) h2]
+    · cases h
+  | ite c a b ihc iha ihb =>
+    intro Γ₁ t' hx hΓ₁ hb h
+    simp only [NTm.toDB] at h
+    split at h
+    · rename_i c' a' b' h0 h1 h2
+      simp only [Option.some.injEq] at h; subst h
+      simp only [NTm.subst, NTm.toDB, openT,
+        ihc Γ₁ c' hx hΓ₁ (fun z hz => hb z (by simp [NTm.binders, hz])) h0,
+        iha Γ₁ a' hx hΓ₁ (fun z hz => hb z (by simp [NTm.binders, hz])) h1,
+        ihb Γ₁ b' hx hΓ₁ (fun z hz => hb z (by simp [NTm.binders, hz])) h2]
+    · cases h
+  | lit n => intro Γ₁ t' _ _ _ h; simp only [NTm.toDB, Option.some.injEq] at h; subst h; simp [NTm.subst, NTm.toDB, openT]
+  | tt => intro Γ₁ t' _ _ _ h; simp only [NTm.toDB, Option.some.injEq] at h; subst h; simp [NTm.subst, NTm.toDB, openT]
+  | ff => intro Γ₁ t' _ _ _ h; simp only [NTm.toDB, Option.some.injEq] at h; subst h; simp [NTm.subst, NTm.toDB, openT]
+  | type => intro Γ₁ t' _ _ _ h; simp only [NTm.toDB, Option.some.injEq] at h; subst h; simp [NTm.subst, NTm.toDB, openT]
+  | int => intro Γ₁ t' _ _ _ h; simp only [NTm.toDB, Option.some.injEq] at h; subst h; simp [NTm.subst, NTm.toDB, openT]
+  | bool => intro Γ₁ t' _ _ _ h; simp only [NTm.toDB, Option.some.injEq] at h; subst h; simp [NTm.subst, NTm.toDB, openT]
+
+end NamedLemmas
+
+/-- **`open` is capture-avoiding substitution.**  Let `b` be a named term in the scope of binders `x :: Γ`
+(names pairwise distinct, as gram demands) and `u` a term in the scope of `Γ`, no binder inside `b` re-binding
+`x`, a name of `Γ` or a free name of `u`.  Then translating the substituted term is opening the translation:
+`toDB Γ (b[u/x]) = open (toDB (x :: Γ) b) 0 (toDB Γ u) 0`. -/
+def C11_open_is_named_substitution_stmt : Prop :=
+  ∀ (Γ : List Name) (x : Name) (b u : NTm) (b' u' : Tm),
+    (x :: Γ).Nodup → (∀ y ∈ b.binders, y ≠ x ∧ y ∉ Γ ∧ y ∉ u.free) → b.binders.Nodup →
+    b.toDB (x :: Γ) = some b' → u.toDB Γ = some u' →
+    (NTm.subst x u b).toDB Γ = some (openT b' 0 u' 0)
+theorem C11_open_is_named_substitution : C11_open_is_named_substitution_stmt := by
+  intro Γ x b u b' u' _ hb _ hb' hu
+  exact NamedLemmas.toDB_subst x u u' Γ hu b [] b' (by simp) (by simp)
+    (fun y hy => ⟨(hb y hy).1, (hb y hy).2.2⟩) hb'
+
+/-- **Shifting is weakening**: translating a term under one more enclosing binder (a fresh name, inserted at
+depth `c`) is shifting the translation by one at cutoff `c`. -/
+def C11_shift_is_named_weakening_stmt : Prop :=
+  ∀ (Γ₁ Γ₂ : List Name) (z : Name) (t : NTm) (t' : Tm),
+    z ∉ Γ₁ → z ∉ t.free → z ∉ t.binders →
+    t.toDB (Γ₁ ++ Γ₂) = some t' → t.toDB (Γ₁ ++ z :: Γ₂) = some (ushift Γ₁.length 1 t')
+theorem C11_shift_is_named_weakening : C11_shift_is_named_weakening_stmt := by
+  intro Γ₁ Γ₂ z t t' _ hz _ h
+  exact NamedLemmas.toDB_insert t Γ₁ [z] Γ₂ t'
+    (fun y hy _ hy' => hz (by rw [List.mem_singleton] at hy'; exact hy' ▸ hy)) h
+
+/-! ### Non-vacuity of the two named-calculus theorems (names: `x = 0`, `y = 1`, `z = 2`, `w = 3`) -/
+
+-- `(y => x + y)[z 1 / x]` under `Γ = [z]`: every hypothesis of `C11_open_is_named_substitution` holds, both
+-- translations exist, and both sides are `y => z 1 + y` with `z` at index 1 under the binder
+def C11_ex3_b : NTm := .lam 1 .int (.bin .sum (.var 0) (.var 1))
+def C11_ex3_u : NTm := .app (.var 2) (.lit 1)
+example :
+    (0 :: [2]).Nodup ∧ (∀ y ∈ C11_ex3_b.binders, y ≠ 0 ∧ y ∉ [2] ∧ y ∉ C11_ex3_u.free) ∧
+    C11_ex3_b.binders.Nodup ∧
+    C11_ex3_b.toDB [0, 2] = some (.lam 1 false .int (.bin .sum (.var 0 1) (.var 1 0))) ∧
+    C11_ex3_u.toDB [2] = some (.app (.var 2 0) (.lit 1)) ∧
+    (NTm.subst 0 C11_ex3_u C11_ex3_b).toDB [2] =
+      some (.lam 1 false .int (.bin .sum (.app (.var 2 1) (.lit 1)) (.var 1 0))) ∧
+    openT (.lam 1 false .int (.bin .sum (.var 0 1) (.var 1 0))) 0 (.app (.var 2 0) (.lit 1)) 0 =
+      .lam 1 false .int (.bin .sum (.app (.var 2 1) (.lit 1)) (.var 1 0)) := by decide
+
+-- under two binders, the substituted term having a binder of its own whose name (`y`) is also a binder of `b`
+-- (harmless: nothing is asked of the binders of `u`): `(y => (w : y) -> x w z)[(y => z y) / x]` under `Γ = [z]`;
+-- the inserted copy is lifted by 2 (its `z` is index 3 under its own binder), the outer `z` drops from 3 to 2
+def C11_ex4_b : NTm := .lam 1 .int (.pi 3 (.var 1) (.app (.app (.var 0) (.var 3)) (.var 2)))
+def C11_ex4_u : NTm := .lam 1 .int (.app (.var 2) (.var 1))
+example :
+    (0 :: [2]).Nodup ∧ (∀ y ∈ C11_ex4_b.binders, y ≠ 0 ∧ y ∉ [2] ∧ y ∉ C11_ex4_u.free) ∧
+    C11_ex4_b.binders.Nodup ∧
+    C11_ex4_b.toDB [0, 2] =
+      some (.lam 1 false .int (.pi 3 false (.var 1 0) (.app (.app (.var 0 2) (.var 3 0)) (.var 2 3)))) ∧
+    C11_ex4_u.toDB [2] = some (.lam 1 false .int (.app (.var 2 1) (.var 1 0))) ∧
+    (NTm.subst 0 C11_ex4_u C11_ex4_b).toDB [2] =
+      some (.lam 1 false .int (.pi 3 false (.var 1 0)
+        (.app (.app (.lam 1 false .int (.app (.var 2 3) (.var 1 0))) (.var 3 0)) (.var 2 2)))) ∧
+    openT (.lam 1 false .int (.pi 3 false (.var 1 0) (.app (.app (.var 0 2) (.var 3 0)) (.var 2 3)))) 0
+        (.lam 1 false .int (.app (.var 2 1) (.var 1 0))) 0 =
+      .lam 1 false .int (.pi 3 false (.var 1 0)
+        (.app (.app (.lam 1 false .int (.app (.var 2 3) (.var 1 0))) (.var 3 0)) (.var 2 2))) := by decide
+
+-- weakening: `y => y + w` under `[x, w]`, the fresh name `z` inserted at depth 1: `w` moves from index 2 to 3
+def C11_ex5 : NTm := .lam 1 .int (.bin .sum (.var 1) (.var 3))
+example :
+    (2 : Name) ∉ [0] ∧ 2 ∉ C11_ex5.free ∧ 2 ∉ C11_ex5.binders ∧
+    C11_ex5.toDB ([0] ++ [3]) = some (.lam 1 false .int (.bin .sum (.var 1 0) (.var 3 2))) ∧
+    C11_ex5.toDB ([0] ++ 2 :: [3]) = some (.lam 1 false .int (.bin .sum (.var 1 0) (.var 3 3))) ∧
+    ushift 1 1 (.lam 1 false .int (.bin .sum (.var 1 0) (.var 3 2))) =
+      .lam 1 false .int (.bin .sum (.var 1 0) (.var 3 3)) := by decide
+
+-- why the side conditions on the binders of `b` are there: with a binder of `b` named like a free name of `u`
+-- (`y => x` and `u = y`, `Γ = [y]`) naive substitution captures — the two sides differ
+example :
+    (NTm.subst 0 (.var 1) (.lam 1 .int (.var 0))).toDB [1] = some (.lam 1 false .int (.var 1 0)) ∧
+    openT (.lam 1 false .int (.var 0 1)) 0 (.var 1 0) 0 = .lam 1 false .int (.var 1 1) := by decide
